@@ -34,28 +34,30 @@ def execute(ob):
     x, q2, m2 = (float(common.frac(ob[k])) for k in ("x", "Q2", "m2"))
     if ob.get("ulp"):
         q2 = math.nextafter(q2, 0.0)
-    line = dict(oid=ob["oid"], proc=ob["proc"], x=ob["x"], Q2=ob["Q2"], m2=ob["m2"], hq=ob["hq"], chi=ob["chi"], outcome="OK",
+    hq, nfff = ob["hq"], ob["nfff"]
+    hname, mkey = {4: ("charm", "mc"), 5: ("bottom", "mb")}[hq]
+    masses = {4: dict(mc=math.sqrt(m2), mb=4.5), 5: dict(mc=1.5, mb=math.sqrt(m2))}[hq]
+    line = dict(oid=ob["oid"], proc=ob["proc"], x=ob["x"], Q2=ob["Q2"], m2=ob["m2"], hq=ob["hq"], nfff=nfff, chi=ob["chi"], outcome="OK",
                 all_zero=False, light_unchanged=True, delta_milli=0, partonic_ok=True, note="")
     xg = cards.make_grid(GRID["n_low"], GRID["n_mid"], x_min=GRID["x_min"])
     kin = [dict(x=x, Q2=q2)]
     try:
         if ob["proc"] == "NC":
-            mc = math.sqrt(m2)
-            th = cards.theory(PTO=2, PTODIS=2, FNS="FFNS", NfFF=3, mc=mc, mb=4.5, mt=170.0, Q0=1.0)
-            o = cards.obs({"F2_charm": kin, "FL_charm": kin, "F2_light": kin, "FL_light": kin}, xgrid=xg, deg=3, prDIS="NC")
+            th = cards.theory(PTO=2, PTODIS=2, FNS="FFNS", NfFF=nfff, mt=170.0, Q0=1.0, **masses)
+            o = cards.obs({f"F2_{hname}": kin, f"FL_{hname}": kin, "F2_light": kin, "FL_light": kin}, xgrid=xg, deg=3, prDIS="NC")
             out = cards.run(th, o)
-            line["all_zero"] = all_zero(out["F2_charm"] + out["FL_charm"], list(out["pids"]), 4)
+            line["all_zero"] = all_zero(out[f"F2_{hname}"] + out[f"FL_{hname}"], list(out["pids"]), hq)
             if not ob["empty"]:
                 # the partonic integrands vanish beyond zmax = 1/(1+4m2/Q2) and not below it
                 from yadism import runner as yr
                 from yadism.coefficient_functions.heavy import f2_nc, fl_nc
 
-                r = yr.Runner(th, cards.obs({"F2_charm": kin}, xgrid=xg, deg=3, prDIS="NC"))
-                esf = r.observables["F2_charm"].elements[0]
+                r = yr.Runner(th, cards.obs({f"F2_{hname}": kin}, xgrid=xg, deg=3, prDIS="NC"))
+                esf = r.observables[f"F2_{hname}"].elements[0]
                 zmax = 1.0 / (1.0 + 4.0 * m2 / q2)
                 for mod in (f2_nc, fl_nc):
                     for cls, order in (("GluonVV", "NLO"), ("GluonAA", "NLO"), ("GluonVV", "NNLO"), ("SingletVV", "NNLO"), ("SingletAA", "NNLO")):
-                        rsl = getattr(getattr(mod, cls)(esf, 3, m2hq=m2), order)()
+                        rsl = getattr(getattr(mod, cls)(esf, nfff, m2hq=m2), order)()
                         f = lambda z: float(rsl.reg(z, rsl.args["reg"]))
                         beyond = [f(min(zmax * (1 + 1e-9), 1 - 1e-12)), f((zmax + 1) / 2)]
                         inside = f(zmax * (1 - 1e-2))
@@ -63,17 +65,16 @@ def execute(ob):
                             line["partonic_ok"] = False
                             line["note"] += f" {mod.__name__.split('.')[-1]}.{cls}.{order}: beyond={beyond} inside={inside}"
             if ob["empty"]:
-                th2 = dict(th, mc=mc * 1.25)
+                th2 = dict(th, **{mkey: masses[mkey] * 1.25})
                 out2 = cards.run(th2, o)
                 line["light_unchanged"] = same(out["F2_light"] + out["FL_light"], out2["F2_light"] + out2["FL_light"])
                 if not line["light_unchanged"]:
                     d = max(float(np.max(np.abs(a.orders[k][0] - b.orders[k][0]))) for a, b in
                             zip(out["F2_light"] + out["FL_light"], out2["F2_light"] + out2["FL_light"]) for k in a.orders)
-                    line["note"] = f"light observables change by {d:.3e} when the charm mass is raised"
+                    line["note"] = f"light observables change by {d:.3e} when the {hname} mass is raised"
         else:
-            name = {4: "F2_charm", 5: "F2_bottom"}[ob["hq"]]
-            masses = {4: dict(mc=math.sqrt(m2), mb=4.5), 5: dict(mc=1.5, mb=math.sqrt(m2))}[ob["hq"]]
-            th = cards.theory(PTO=1, PTODIS=1, FNS="FFNS", NfFF=3, mt=170.0, Q0=1.0, **masses)
+            name = f"F2_{hname}"
+            th = cards.theory(PTO=1, PTODIS=1, FNS="FFNS", NfFF=nfff, mt=170.0, Q0=1.0, **masses)
             o = cards.obs({name: kin, name.replace("F2", "F3"): kin}, xgrid=xg, deg=3, prDIS="CC", ProjectileDIS="neutrino")
             out = cards.run(th, o)
             line["all_zero"] = all_zero(out[name] + out[name.replace("F2", "F3")], list(out["pids"]), ob["hq"])
@@ -110,7 +111,7 @@ def run(ctx):
     obls = ctx.tlc_emit("Emit_C09", common.cfg_text({}, spec=None))
     todo = []
     for o in obls:
-        o["oid"] = common.oid_of("C09", {k: o[k] for k in ("proc", "x", "Q2", "m2", "hq")})
+        o["oid"] = common.oid_of("C09", {k: o[k] for k in ("proc", "x", "Q2", "m2", "hq", "nfff")})
         if float(common.frac(o["x"])) < 0.1 and o["proc"] == "CC" and ctx.quick:
             continue
         todo.append(o)
@@ -133,7 +134,7 @@ def run(ctx):
     by = {ln["oid"]: (o, ln) for o, ln in zip(todo, lines)}
     for oid, clause in bad.items():
         o, ln = by[oid]
-        key = f"{o['proc']}:hq{o['hq']}:x{o['x'][0]}/{o['x'][1]}:Q2_{o['Q2'][0]}/{o['Q2'][1]}{'-ulp' if o.get('ulp') else ''}:{clause}"
+        key = f"{o['proc']}:hq{o['hq']}.NfFF{o['nfff']}:x{o['x'][0]}/{o['x'][1]}:Q2_{o['Q2'][0]}/{o['Q2'][1]}{'-ulp' if o.get('ulp') else ''}:{clause}"
         ctx.violation(key, f"{o['proc']} heavy quark {o['hq']} at x={o['x']}, Q2={o['Q2']}{' (one ulp below)' if o.get('ulp') else ''}, "
                       f"m2={o['m2']} [{o['cls']}]: {clause} {ln['note']}", dict(kind="C09", obligation=o))
 
